@@ -149,11 +149,11 @@ class Instr:
         return (m.group('tag') or '') if m else '?'
 
     def maybe_pause(self, name, point):
-        p = self.pause
-        if p and p[0] == name and p[1] == point and not p[2].is_set():
-            p[2].set()
-            if not p[3].wait(150):
-                self.rec(name)['sched_timeout'] = True
+        for p in (self.pause, getattr(self, 'pause_b', None)):
+            if p and p[0] == name and p[1] == point and not p[2].is_set():
+                p[2].set()
+                if not p[3].wait(150):
+                    self.rec(name)['sched_timeout'] = True
 
     def install(self):
         be = importlib._bootstrap_external
@@ -281,10 +281,22 @@ def main():
         reached.wait(120)
         paused = not a_done.is_set()
         tb = threading.Thread(target=lambda: results.__setitem__(b, import_and_probe(b)))
-        tb.start()
-        tb.join(120)
-        resume.set()
-        ta.join(120)
+        if conc.get('order') == 'overlap':
+            # A enters, B enters, A leaves, B leaves (not nested): B is held at its own P1 until A has finished
+            reached_b, resume_b = threading.Event(), threading.Event()
+            ins.pause_b = (b, 'P1', reached_b, resume_b)
+            tb.start()
+            reached_b.wait(120)
+            res['paused_b'] = tb.is_alive() and reached_b.is_set()
+            resume.set()
+            ta.join(120)
+            resume_b.set()
+            tb.join(120)
+        else:
+            tb.start()
+            tb.join(120)
+            resume.set()
+            ta.join(120)
         res['paused'] = paused
         res['stuck'] = ta.is_alive() or tb.is_alive()
         imports = [results.get(a, {'mod': a, 'import': 'missing'}), results.get(b, {'mod': b, 'import': 'missing'})]
